@@ -15,10 +15,12 @@ impl<'a, T: Buf> Buf for TakeMut<'a, T> {
         &&& post.limit <= pre.limit
         &&& pre.limit <= (*pre.inner)@.len()
         &&& (*post.inner)@ == (*pre.inner)@.skip(pre.limit - post.limit)
+        &&& T::step_ok(&*pre.inner, &*post.inner)
     }
-    proof fn lemma_step_refl(a: &Self) { assert((*a.inner)@.skip(0) =~= (*a.inner)@); }
+    proof fn lemma_step_refl(a: &Self) { assert((*a.inner)@.skip(0) =~= (*a.inner)@); T::lemma_step_refl(&*a.inner); }
     proof fn lemma_step_trans(a: &Self, b: &Self, c: &Self) {
         assert((*a.inner)@.skip(a.limit - b.limit).skip(b.limit - c.limit) =~= (*a.inner)@.skip(a.limit - c.limit));
+        T::lemma_step_trans(&*a.inner, &*b.inner, &*c.inner);
     }
     #[verifier::external_body] fn remaining(&self) -> (r: usize) { unimplemented!() }
     #[verifier::external_body] fn chunk(&self) -> (r: &[u8]) { unimplemented!() }
